@@ -436,7 +436,17 @@ func entryFailSig(p *Program, ex *expectation) string {
 		}
 	}
 	if first != "" {
-		return first + "-valued-map-entry/run-fails"
+		// what lies between the entry and the leaf, e.g. ptr-struct for MM.k.PM.Q.S
+		for i, it := range p.Items {
+			if kind, entry, below := mapEntryClass(rootTypes[p.Dst], it.To); kind == first && below >= 1 {
+				ks := strings.Split(p.info(i).ToChain, ">")
+				mid := ks[len(entry)+1 : len(ks)-1]
+				if len(mid) == 0 {
+					return first + "-valued-map-entry/run-fails/field-of-entry"
+				}
+				return first + "-valued-map-entry/run-fails/via-" + strings.Join(mid, "-")
+			}
+		}
 	}
 	return ""
 }
